@@ -52,7 +52,7 @@ REQUIRED = dict(
               'contract:chem.split-profiles-aligned', 'contract:chem.rejects-traces-above-one', 'contract:chem.shape',
               'contract:gas.one-per-layer', 'contract:gas.finite', 'contract:gas.within-controls',
               'rejects-above-one', 'accepts-valid', 'contract-fired'],
-    classes=['gas:ConstantGas', 'gas:TwoLayerGas', 'gas:TwoPointGas', 'gas:ArrayGas', 'gas:PowerGas',
+    classes=['gas-added-after-initialisation', 'gas:ConstantGas', 'gas:TwoLayerGas', 'gas:TwoPointGas', 'gas:ArrayGas', 'gas:PowerGas',
              'fill:1', 'fill:2', 'fill:3', 'fill:4', 'ratio:float', 'ratio:list', 'mixture:dilute', 'mixture:heavy',
              'mixture:unity', 'mixture:exceed', 'avail:memory', 'avail:file', 'avail:none', 'fill-gas-active',
              'trace-inactive', 'nlayers:2', 'nlayers:100', 'via-forward-model', 'via-setter', 'twolayer:smoothed'])
@@ -305,6 +305,18 @@ def wl_mixture(ctx, rng):
             P2, T2, _ = gen_grid(rng, n2)
             o4 = init_chem(ctx, chem, n2, T2, P2)
             judge(ctx, o4, gases, n2, after='regrid')
+        # a gas added AFTER the chemistry was initialised (a script that extends the composition step by step): the
+        # next initialisation must account for it everywhere -- mixing ratios, split, mean molecular weight
+        if rng.random() < 0.4:
+            pool = [m for m in TRACE_POOL if m not in mols and m not in fills]
+            if pool:
+                m_new = str(pool[rng.integers(0, len(pool))])
+                g_new = gen_gas(ctx, rng, m_new, GAS_KINDS[rng.integers(0, 5)], P, float(10 ** rng.uniform(-6, -1.5)))
+                chem.addGas(g_new)
+                gases = list(gases) + [g_new]
+                ctx.observe('gas-added-after-initialisation')
+                o5 = init_chem(ctx, chem, n, T, P)
+                judge(ctx, o5, gases, n, after='gas-added')
     if d is not None:
         shutil.rmtree(d, ignore_errors=True)
     ctx.sig('mix', tuple(fills), tuple(ratios), tuple((g.molecule, type(g).__name__) for g in gases), n, tuple(sorted(avail)))
